@@ -684,7 +684,8 @@ func init() {
 		Title:     "The connected-client limit is never exceeded",
 		Technique: "check-then-act detection: the value compared with the limit must be the result of the atomic read-modify-write that takes the slot",
 		Explanation: "(a) the limit test and the increment of ClientsConnected must be one atomic step: the value compared with MaximumClients has to be the result of the atomic add/CAS that takes the slot (add-then-compare-and-undo or a CAS loop), not a separate load followed later by an add with blocking calls in between; " +
-			"(b) the refusal uses ErrServerUnavailable for MQTT 3 (mapped to return code 3) and ErrServerBusy (0x89) for MQTT 5, and the decrement is deferred right after the increment.",
+			"(b) the refusal uses ErrServerUnavailable for MQTT 3 (mapped to return code 3) and ErrServerBusy (0x89) for MQTT 5, and the decrement is deferred right after the increment; " +
+			"(c) the increment is reached only on the edge where ClientsConnected < MaximumClients was observed — no exemption by session state or client id; (d) the counter is written only by the handler's single increment and its deferred decrement.",
 		NotDecided: []string{"actual schedules"},
 		Run:        runC35,
 	})
@@ -761,6 +762,42 @@ func runC35(c *Ctx) {
 		}
 	}
 	c.ob("C35.b refusal-codes", "(*mqtt.Server).attachClient defers the decrement immediately after the increment", c.pos(add.Pos()), okd, "a return or panic in between would leak a slot")
+	// (c) the limit test guards every way to a slot: no condition (session state, client id, protocol) lets a
+	// connection reach the increment without having passed `count < MaximumClients`
+	c.underFact("C35.c limit-guards-every-slot", "(*mqtt.Server).attachClient: the slot is taken only on the edge where ClientsConnected < MaximumClients was observed", add,
+		textHas("s.Info.ClientsConnected", "MaximumClients", " < "), true, "some path reaches the increment without the limit test (for instance an exemption for known client ids: offline sessions hold no slot)")
+	// (d) one increment and one deferred decrement per handler: every other write of the counter breaks the count
+	nW := 0
+	for _, fn := range c.ModFns {
+		if fnPkgPath(fn) != modPath {
+			continue
+		}
+		for _, ins := range instrs(fn) {
+			cc := callOf(ins)
+			if cc == nil {
+				continue
+			}
+			n := cname(cc)
+			if !strings.HasPrefix(n, "sync/atomic.") || len(cc.Args) == 0 || !strings.HasSuffix(describe(cc.Args[0]), ".Info.ClientsConnected") {
+				continue
+			}
+			if n == "sync/atomic.LoadInt64" {
+				continue
+			}
+			nW++
+			_, isDefer := ins.(*ssa.Defer)
+			role := ""
+			switch {
+			case n == "sync/atomic.AddInt64" && describe(cc.Args[1]) == "1" && !isDefer && ins == ssa.Instruction(add):
+				role = "takes the slot"
+			case n == "sync/atomic.AddInt64" && describe(cc.Args[1]) == "-1" && isDefer && ins == dec:
+				role = "releases the slot when the handler returns"
+			}
+			c.ob("C35.d slot-accounting", fmt.Sprintf("%s: %s(ClientsConnected, %s)%s is the handler's single increment or its deferred decrement", fname(fn), strings.TrimPrefix(n, "sync/atomic."), describe(cc.Args[len(cc.Args)-1]), map[bool]string{true: " [deferred]", false: ""}[isDefer]),
+				c.pos(ins.Pos()), role != "", "a second decrement (or any other write) makes the counter drift below the number of live connections, and later connections are admitted above the limit")
+		}
+	}
+	c.floor("C35.d writes of ClientsConnected", nW, 2)
 }
 
 // v5toV3 checks an entry of packets.V5CodesToV3.
@@ -789,7 +826,8 @@ func init() {
 		Technique: "WaitGroup happens-before rule over the call graph with goroutine spawn points; sibling comparison of the listeners' Close methods; shutdown call chain",
 		Explanation: "(a) ClientsWg.Add must happen-before CloseAll's Wait: it has to run in the accepting goroutine before the `go` statement that starts the handler, not inside the spawned handler; " +
 			"(b) every listener's Close stops accepting before (or atomically with) sweeping its clients, sets its end flag before the sweep, and sweeps on every path; Server.Close reaches Listeners.CloseAll → each listener's Close → closeListenerClients → DisconnectClient(ErrServerShuttingDown), and CloseAll ends in ClientsWg.Wait; " +
-			"(c) a connection becomes visible to the sweep (GetByListener) only at Clients.Add: the window between accept and registration is reported by (a)/(b).",
+			"(c) a connection becomes visible to the sweep (GetByListener) only at Clients.Add: the window between accept and registration is reported by (a)/(b); while a listener's Close sweeps before it stops accepting, its Serve loop re-tests the end flag between Accept and the hand-over to the handler; " +
+			"(d) in the function that registers with ClientsWg the Add precedes every module call, hook and read (a handler in its handshake is already counted).",
 		NotDecided: []string{"actual schedules of connections racing shutdown"},
 		Run:        runC36,
 	})
@@ -881,10 +919,72 @@ func runC36(c *Ctx) {
 		if sweep != nil && cas != nil {
 			c.ob("C36.b close-order", name+" sets its end flag before the sweep", c.pos(sweep.Pos()), reachableFrom(cas, sweep) && !reachableFrom(sweep, cas), "")
 		}
+		stopFirst := sweep != nil && stop != nil && reachableFrom(stop, sweep) && !reachableFrom(sweep, stop)
 		if sweep != nil && stop != nil {
-			c.ob("C36.b close-order", name+" stops accepting before it sweeps its clients", c.pos(sweep.Pos()), reachableFrom(stop, sweep) && !reachableFrom(sweep, stop),
+			c.ob("C36.b close-order", name+" stops accepting before it sweeps its clients", c.pos(sweep.Pos()), stopFirst,
 				"the sweep runs first: a connection accepted between the sweep and the listener's close is never disconnected, and Close() then waits for it forever")
 		}
+		// (c) while Close sweeps before it stops accepting, the accept loop must re-test the end flag between
+		// Accept and the hand-over to the handler: a connection accepted after the flag was set is dropped
+		sv := c.optFn("listeners", "(*"+l+").Serve")
+		if sv == nil {
+			continue
+		}
+		var accept ssa.Instruction
+		for _, ins := range instrs(sv) {
+			if cc := callOf(ins); cc != nil && cc.IsInvoke() && cc.Method.Name() == "Accept" {
+				accept = ins
+			}
+		}
+		if accept == nil {
+			continue // websocket: net/http owns the accept loop
+		}
+		nGo := 0
+		for _, ins := range instrs(sv) {
+			g, isGo := ins.(*ssa.Go)
+			if !isGo {
+				continue
+			}
+			nGo++
+			m := textHas(".end)", "== 0")
+			_, hit := (&PathQuery{Fn: sv, From: accept, Target: isIns(g), EdgeOK: func(b *ssa.BasicBlock, i int) bool { return !edgeEstablishes(b, i, m, true) }}).Find()
+			c.ob("C36.c accept-rechecks-end", "(*listeners."+l+").Serve: a connection accepted after shutdown began is not handed to a handler (end flag re-tested after Accept), or Close stops accepting before its sweep", c.pos(g.Pos()),
+				hit == nil || stopFirst, "Close sets the end flag, sweeps the current clients and only then closes the socket: a connection accepted in that window becomes a client nobody disconnects, and Server.Close waits for it forever")
+		}
+		c.floor("C36.c handler spawn sites in (*listeners."+l+").Serve", nGo, 1)
+	}
+	// (d) the WaitGroup covers the whole handler: in the function that registers with ClientsWg, no module call,
+	// hook or read happens before the Add (a handler still in its handshake would be invisible to Close)
+	for _, fn := range c.ModFns {
+		var addWg ssa.CallInstruction
+		for _, ci := range c.callsNamed(fn, "(*sync.WaitGroup).Add") {
+			if strings.Contains(describe(ci.Common().Args[0]), "ClientsWg") {
+				addWg = ci
+			}
+		}
+		if addWg == nil {
+			continue
+		}
+		_, hit := (&PathQuery{Fn: fn, Target: func(x ssa.Instruction) bool {
+			if _, isDefer := x.(*ssa.Defer); isDefer {
+				return false
+			}
+			cc := callOf(x)
+			if cc == nil || x == ssa.Instruction(addWg) {
+				return false
+			}
+			if cc.IsInvoke() {
+				return true
+			}
+			g := cc.StaticCallee()
+			return g != nil && inModule(g)
+		}, Barrier: isIns(addWg)}).Find()
+		what := ""
+		if hit != nil {
+			what = "reached first: " + cname(callOf(hit)) + " at " + c.pos(hit.Pos())
+		}
+		c.ob("C36.d waitgroup-covers-handler", fname(fn)+": ClientsWg.Add precedes every module call, hook and read of the handler", c.pos(addWg.Pos()), hit == nil,
+			"Server.Close returns from Wait while a handler that has not registered yet is still running — "+what)
 	}
 }
 
